@@ -188,6 +188,90 @@ func runC08(c *Ctx) {
 			"module members read by the digest closure: %v; denied ones: %v (the digest must be the same whether or not the module is a target, whatever it is called, whichever set it is in)", sortedBoolKeys(seen), bad)
 	}
 
+	// (3c) added after the second round of seeded changes: the one chosen documentation file is chosen by walking a
+	// fixed ordered list (first match wins), in every function that picks it; and a module that provides an imported
+	// path stays a dependency (shared obligation with C10)
+	c.Rule("DOC-CHOICE", "the documentation file is the first match of one fixed ordered list, at every site that picks it", 2)
+	{
+		info := pkM.TypesInfo
+		var lists []string
+		n := 0
+		// the package variables that hold the documentation file names: initialised from a literal naming buf.md /
+		// README.md, or from another such variable (found by content, not by name)
+		docVars := map[types.Object]bool{}
+		for changed := true; changed; {
+			changed = false
+			for _, f := range pkM.Syntax {
+				ast.Inspect(f, func(x ast.Node) bool {
+					var lhs []ast.Expr
+					var rhs []ast.Expr
+					switch d := x.(type) {
+					case *ast.ValueSpec:
+						for _, nm := range d.Names {
+							lhs = append(lhs, nm)
+						}
+						rhs = d.Values
+					case *ast.AssignStmt:
+						lhs, rhs = d.Lhs, d.Rhs
+					default:
+						return true
+					}
+					for i, l := range lhs {
+						o := identObj(info, l)
+						if o == nil || o.Parent() != pkM.Types.Scope() || docVars[o] || i >= len(rhs) {
+							continue
+						}
+						hit := false
+						ast.Inspect(rhs[i], func(m ast.Node) bool {
+							if s, ok := m.(*ast.BasicLit); ok && (s.Value == `"buf.md"` || s.Value == `"README.md"`) {
+								hit = true
+							}
+							if id, ok := m.(*ast.Ident); ok && docVars[info.Uses[id]] {
+								hit = true
+							}
+							return true
+						})
+						if hit {
+							docVars[o] = true
+							changed = true
+						}
+					}
+					return true
+				})
+			}
+		}
+		for _, fr := range p.FuncsOf(pkM) {
+			if fr.Decl.Body == nil {
+				continue
+			}
+			// a function that returns the loop variable of a loop from inside the loop: "first match wins"
+			ast.Inspect(fr.Decl.Body, func(x ast.Node) bool {
+				rs, ok := x.(*ast.RangeStmt)
+				if !ok {
+					return true
+				}
+				xo, _ := identObj(info, rs.X).(*types.Var)
+				if xo == nil || !docVars[xo] {
+					return true
+				}
+				n++
+				_, isSlice := xo.Type().Underlying().(*types.Slice)
+				lists = append(lists, xo.Name())
+				c.Ob("DOC-CHOICE", fr.Decl.Name.Name, rs.Pos(), isSlice, true, "%s picks the documentation file by ranging over %s, which is an ordered list: %v (a map would make the choice, and the digest, vary from run to run)", fr.Decl.Name.Name, xo.Name(), isSlice)
+				return true
+			})
+		}
+		same := true
+		for _, l := range lists {
+			if l != lists[0] {
+				same = false
+			}
+		}
+		c.Ob("DOC-CHOICE", "one-list", token.NoPos, n >= 2 && same, true, "%d picking sites, all over the same list: %v %v", n, same, lists)
+	}
+	c.Rule("DEP-SET-COMPLETE", "a module that provides an imported path is a dependency of the importer (only unprovided built-in well-known types are skipped)", 1)
+	c10WktNarrow(c, "DEP-SET-COMPLETE")
+
 	// (4) text agreement
 	c08Text(c, pkC)
 	c08ParseVerbatim(c)
